@@ -57,6 +57,7 @@ type TField struct {
 	Alias string // api.key, "" = none
 	T     *TType
 	Req   int
+	Bare  bool // rendered without a requiredness keyword although Req is ReqOptional (union members)
 	// default
 	DefExpr string
 	DefVal  *tref.Val // nil: no default (or one the library does not support: lists/maps)
@@ -160,7 +161,9 @@ func (f *TFile) Text() string {
 			case ReqRequired:
 				req = "required "
 			case ReqOptional:
-				req = "optional "
+				if !fd.Bare {
+					req = "optional "
+				}
 			}
 			fmt.Fprintf(&sb, "  %d: %s%s %s", fd.ID, req, fd.T.Text(f), fd.Name)
 			if fd.DefExpr != "" {
@@ -346,7 +349,9 @@ func (g *tgen) newStruct(f *TFile, depth int, kind string) *TStruct {
 		names[fd.Name] = true
 		fd.T = g.genType(f, depth, false)
 		if kind == "union" {
+			// the members of a union are optional whether the IDL says so or not
 			fd.Req = ReqOptional
+			fd.Bare = g.r.Bool()
 		} else {
 			fd.Req = g.r.Intn(3)
 			if fd.T.Resolved().Kind == "struct" {
